@@ -2,7 +2,6 @@ import copy
 import json
 import re
 
-_TE91 = re.compile(r"VInt 91(%Z)?; VTypeErr")
 
 
 def _walk(node, path, out):
@@ -76,6 +75,9 @@ def candidates(case):
             reps = []
             for key in ("a", "b", "c"):
                 if _is_stmt(n.get(key)):
+                    txt = json.dumps(n[key])
+                    if n["k"] in ("repeat", "forof") and ('"k": "break"' in txt or '"k": "continue"' in txt):
+                        continue        # would leave a break/continue outside any loop
                     reps.append(n[key])
             if n["k"] != "skip":
                 reps.append({"k": "skip"})
@@ -99,111 +101,6 @@ def _stmts(case):
         if isinstance(case.get(bkey), dict):
             _walk(case[bkey], [bkey], nodes)
     return nodes
-
-
-def _has_reenter(node):
-    nodes = []
-    _walk(node, [], nodes)
-    return any(n.get("k") == "reenter" for _, n in nodes)
-
-
-def _top_star_sources(case):
-    """sources of yield* that belong to the top-level body (not nested inside an inner generator definition)"""
-    res = []
-    for path, n in _stmts(case):
-        if "body" in path[1:]:
-            continue
-        if n.get("k") == "ystar" and isinstance(n.get("s"), dict):
-            res.append(n["s"])
-        stack = [n.get("e"), (n.get("s") or {}).get("arg") if isinstance(n.get("s"), dict) else None]
-        while stack:
-            e = stack.pop()
-            if not isinstance(e, dict):
-                continue
-            if e.get("k") == "ystar" and isinstance(e.get("s"), dict):
-                res.append(e["s"])
-                stack.append(e["s"].get("arg"))
-            stack += [e.get("a"), e.get("b")]
-    return res
-
-
-def pred_reenter_during_delegate(case, record, expected):
-    """C09-N1: a call on the top generator made from inside a generator it delegates to with yield*; the model
-    expects the TypeError log entry [91, TypeError], goja answered the call"""
-    if case.get("kind") != "gen":
-        return False
-    inside = any(s.get("k") == "gen" and _has_reenter(s.get("body")) for s in _top_star_sources(case))
-    return inside and bool(_TE91.search(expected.replace("\n", " ")))
-
-
-def pred_reenter_after_getiterator_failure(case, record, expected):
-    """C09-N2: top-level `yield* <non-iterable>` and a call on the generator from its own body afterwards"""
-    if case.get("kind") != "gen":
-        return False
-    bad = any(s.get("k") == "bad" for s in _top_star_sources(case))
-    top_reenter = any(n.get("k") == "reenter" and "body" not in path[1:] for path, n in _stmts(case))
-    return bad and top_reenter and bool(_TE91.search(expected.replace("\n", " "))) and '"a":[90,' in (record.get("obs") or "")
-
-
-def _suspends_in_finally(case):
-    for path, n in _stmts(case):
-        if n.get("k") in ("tryfinally", "trycf"):
-            fin = n.get("b") if n["k"] == "tryfinally" else n.get("c")
-            txt = json.dumps(fin)
-            if '"k": "yield"' in txt or '"k": "ystar"' in txt:
-                return True
-    return False
-
-
-def pred_throw_after_return_in_finally(case, record, expected):
-    """C09-N3: return() leaves the generator suspended at a yield inside a finally block; a later throw() escapes every
-    try/catch of the caller (goja's try stack is left unbalanced)"""
-    if case.get("kind") != "gen":
-        return False
-    ops = [o.get("k") for o in case.get("ops") or []]
-    if "return" not in ops:
-        return False
-    bad_in_finally = False
-    for path, n in _stmts(case):
-        if n.get("k") in ("tryfinally", "trycf"):
-            fin = n.get("b") if n["k"] == "tryfinally" else n.get("c")
-            if '"k": "bad"' in json.dumps(fin):
-                bad_in_finally = True
-    if "throw" not in ops[ops.index("return"):] and not bad_in_finally:
-        return False
-    obs = record.get("obs") or ""
-    return _suspends_in_finally(case) and ("script error" in obs or "STEP error" in obs or "HOSTPANIC" in obs)
-
-
-def _reenter_in_finally(case):
-    for path, n in _stmts(case):
-        if n.get("k") in ("tryfinally", "trycf"):
-            fin = n.get("b") if n["k"] == "tryfinally" else n.get("c")
-            txt = json.dumps(fin)
-            if '"k": "reenter"' in txt or '"k": "throw"' in txt or '"k": "bad"' in txt:
-                return True
-    return False
-
-
-def pred_native_throw_in_finally_during_return(case, record, expected):
-    """C09-N4: something that raises an exception (a rejected re-entrant call, throw, a non-iterable) inside a finally
-    block, a return() in the history (or a for-of that closes an inner generator), and the host panicked"""
-    ops = [o.get("k") for o in case.get("ops") or []]
-    return (case.get("kind") == "gen" and _reenter_in_finally(case) and "HOSTPANIC" in (record.get("obs") or "")
-            and ("return" in ops or '"k": "forof"' in json.dumps(case.get("body"))))
-
-
-def pred_pending_exception_lost(case, record, expected):
-    """C09-N5: for-of over a hand-written iterator whose return() throws, inside try/finally, a throw() issued from a
-    call site that is itself inside a for-of (shapes 3, 4); the model expects the catch clause to see 901"""
-    if case.get("kind") != "gen":
-        return False
-    txt = json.dumps(case.get("body"))
-    ops = case.get("ops") or []
-    shaped_throw = any(o.get("k") == "throw" and o.get("shape") in (3, 4) for o in ops)
-    obs = record.get("obs") or ""
-    return (shaped_throw and '"rtn": "T"' in txt and '"k": "forof"' in txt and ('"k": "tryfinally"' in txt or '"k": "trycf"' in txt)
-            and "HOSTPANIC" not in obs and "script error" not in obs)
 
 
 CFG = {
@@ -241,13 +138,7 @@ CFG = {
         "body activations and delegation chains terminate (fuel); out-of-fuel is an explicit outcome on both sides",
         "async functions: correspondence only (await resumption order = round-robin over settled promises)",
     ],
-    "predicates": {
-        "C09.reenter_during_delegate": pred_reenter_during_delegate,
-        "C09.reenter_after_getiterator_failure": pred_reenter_after_getiterator_failure,
-        "C09.throw_after_return_in_finally": pred_throw_after_return_in_finally,
-        "C09.native_throw_in_finally_during_return": pred_native_throw_in_finally_during_return,
-        "C09.pending_exception_lost_after_failing_iterator_close": pred_pending_exception_lost,
-    },
+    "predicates": {},
     "manifest": {
         "text": ("proof: goja's generatorObject state machine (states, delegated iterator, next/throw/return, yield* forwarding "
                  "with missing throw/return) is proved to answer every driver history exactly as ECMA-262 27.5.3 + 14.4.14 for "
